@@ -111,8 +111,8 @@ def put(self, packet):
             self.store.put(packet)
 ''')
 
-spec('Port', 'run', what='one packet at a time: dequeue, hold 8*size/rate when rate > 0, release its bytes on every '
-                         'path (an empty port holds exactly 0 bytes, whatever the rounding history), forward it once')('''
+spec('Port', 'run', what='one packet at a time: dequeue, hold 8*size/rate when rate > 0, then the advertised occupancy is '
+                         'recomputed from the packets still waiting (no rounding residue of departed packets, on every path), forward it once')('''
 def run(self, env):
     while True:
         packet = yield self.store.get()
@@ -120,9 +120,7 @@ def run(self, env):
         self.busy_packet_size = packet.size
         if self.rate > 0:
             yield env.timeout(packet.size * 8 / self.rate)
-        self.byte_size -= packet.size
-        if not self.store.items:
-            self.byte_size = 0
+        self.byte_size = math.fsum(p.size for p in self.store.items)
         if self.out:
             self.out.put(packet)
         self.busy = 0
@@ -512,7 +510,7 @@ def __init__(self, outs, probs):
 spec('RandomDemux', 'put', what='exactly one output, drawn with the configured weights')('''
 def put(self, packet):
     self.packets_recevied += 1
-    choices(self.outs, weights=self.probs)[0].put(packet)
+    random.choices(self.outs, weights=self.probs)[0].put(packet)
 ''')
 
 spec('FIBDemux', '__init__')('''
